@@ -402,6 +402,8 @@ package multiplex
 //@   # C03: a chunk is sent only after the stream was seen open AFTER the read that produced it (the read
 //@   # may have been unblocked by a Close): nothing is written on a stream closed in the meantime
 //@   atcall obfuscateAndSend requires recheckedAfterRead: calls("(*Stream).isClosed") == calls("(io.Reader).Read")
+//@   # ... and the check comes AFTER the read of that chunk: when a read starts, every earlier read has had its check
+//@   atcall Read requires checkFollowsRead: calls("(*Stream).isClosed") == calls("(io.Reader).Read")
 //@   modifies *
 //@   preserves Frame.StreamID, Stream.id, Stream.session, Stream.recvBuf, Session.sb, SessionConfig.MsgOnWireSizeLimit, Session.maxStreamUnitWrite, Session.streamSendBufferSize, Session.connReceiveBufferSize, SessionConfig.Unordered, SessionConfig.Valve, SessionConfig.Singleplex, Obfuscator.payloadCipher, switchboard.session, switchboard.valve
 //@   loop 0 invariant sesh: s.session != nil && closable(s.session)
@@ -591,6 +593,11 @@ package multiplex
 //@   requires closable(sesh) && holdsNone() && arrayOf(data) != arrayOf(sesh.sessionKey)
 //@   ensures droppedWithoutEffect: !succeeded("(*Obfuscator).deobfuscate") ==> ret0 != nil && !called("(*Stream).recvFrame") && !called("(*Session).passiveClose") && !called("(*Session).SetTerminalMsg") && !called("makeStream")
 //@   ensures closingOnlyIfDecoded: called("(*Session).passiveClose") ==> succeeded("(*Obfuscator).deobfuscate")
+//@   # C02/C03: only the SESSION-closing notice closes anything here; a stream's frames - data and its closing
+//@   # frame alike - go to the stream's receive buffer, which applies the close when its turn has come
+//@   atcall passiveClose requires onlyTheSessionNotice: frame.Closing == closingSession
+//@   atcall closeStream requires neverDirectly: false
+//@   atcall Close requires neverDirectly: false
 //@   ensures locks: holdsNone()
 //@   modifies *
 //@   preserves $PKEEP
